@@ -100,6 +100,22 @@ func (a *Act) call(in *ssa.Call, c *ssa.CallCommon, st *State, reach string) {
 		recv = a.val(c.Value)
 	}
 	a.doCall(in, in, c, recv, args, st, reach)
+	if (a.top || a.letsAtEntry) && a.ct != nil && len(a.ct.Cuts) > 0 {
+		// cuts anchored on a call rather than on a line of text:  after `call:F` ...  (F: the callee's name as written in
+		// contracts, or the name of the function-valued variable / parameter that is called)
+		var names []string
+		if fn := c.StaticCallee(); fn != nil {
+			names = append(names, "call:"+shortFn(fn), "call:"+fn.Name())
+		} else if c.IsInvoke() {
+			names = append(names, "call:"+c.Method.Name())
+		} else if c.Value != nil {
+			names = append(names, "call:"+c.Value.Name())
+			if p, ok := c.Value.(*ssa.Parameter); ok {
+				names = append(names, "call:"+p.Name())
+			}
+		}
+		a.fireNamedCuts(names, in, st, reach)
+	}
 }
 
 func (a *Act) doCall(res ssa.Value, instr ssa.Instruction, c *ssa.CallCommon, recv string, args []string, st *State, reach string) {
